@@ -100,7 +100,13 @@ func (a Afero) Walk(root string, walkFn filepath.WalkFunc) error {
 func Walk(fs Fs, root string, walkFn filepath.WalkFunc) error {
 	info, err := lstatIfPossible(fs, root)
 	if err != nil {
-		return walkFn(root, nil, err)
+		err = walkFn(root, nil, err)
+	} else {
+		err = walk(fs, root, info, walkFn)
 	}
-	return walk(fs, root, info, walkFn)
+	// like filepath.Walk: a SkipDir (or SkipAll) that reaches the top ends the walk, it is not an error
+	if err == filepath.SkipDir || err == filepath.SkipAll {
+		return nil
+	}
+	return err
 }
